@@ -31,9 +31,9 @@ ASSUMPTIONS = [
     'text round trip: coefficients below EQ_TOLERANCE are not printed by __str__, so equality after a plain-text cycle is required up to such terms (exact for all other terms)',
 ]
 OPEN_STATEMENTS = [
-    'parse_print_roundtrip / text_file_roundtrip are proved under the contract CoefOK (Python float()/complex() read the format() text of every printed coefficient back; no white space, brackets, colon or leading + in that text): the contract itself is checked on the real functions by the correspondence run, not proved',
+    'for INTEGER coefficients CoefOK is discharged (coef_contract_int) up to the agreement of the float table with the exact integer model, which the run checks on the real float(); for decimal / exponent / complex coefficient texts: parse_print_roundtrip / text_file_roundtrip are proved under the contract CoefOK (Python float()/complex() read the format() text of every printed coefficient back; no white space, brackets, colon or leading + in that text): the contract itself is checked on the real functions by the correspondence run, not proved',
     'canonical-form hypothesis (simplify cls key = (1, key)) of the round-trip theorems: keys stored by the operator classes satisfy it (C01); it is a hypothesis here',
-    'MolecularData.save / load: no Model, no theorem (oracle on random attribute assignments only)',
+    'MolecularData.save / load: only the attribute encode / decode table (None <-> False sentinel, int(), float()) is modelled and proved (molecular_data_attribute_table, compared with the real round trip for every scalar attribute); geometry / atoms / arrays / file handling are covered by the three-cycle oracle only; h5py is a contract',
     'marshal is a contract (load(dump(x)) = x); the binary round trip theorem is stated over the value handed to marshal.dump',
 ]
 
@@ -180,6 +180,9 @@ def exact_terms(op, drop_small=False):
 
 # ---------------------------------------------------------------- number tables for the Model
 
+FLOAT_MODEL = {'checked': 0, 'bad': []}
+
+
 def tables_for(ctx, strings):
     """float(s) / complex(s) of every text the Model's parser will hand to them"""
     strings = list(dict.fromkeys(strings))
@@ -194,6 +197,14 @@ def tables_for(ctx, strings):
                     floats[txt] = to_gq(float(txt))
             except (ValueError, OverflowError):
                 pass
+    # the Lean Model of float() on integer literals must agree with the real float() on every integer literal of the table
+    import re
+    lits = [k for k in floats if re.fullmatch(r'-?[0-9]+', k)]
+    if lits:
+        for k, m in zip(lits, ctx.driver.run([{'op': 'c20.float_int_model', 's': k} for k in lits])):
+            FLOAT_MODEL['checked'] += 1
+            if m != floats[k]:
+                FLOAT_MODEL['bad'].append((k, floats[k], m))
     return {'floats': [[k, v] for k, v in floats.items()], 'complexes': [[k, v] for k, v in complexes.items()]}
 
 
@@ -660,6 +671,36 @@ def stream_molecule(ctx):
             except Exception as e:  # noqa: BLE001
                 s.violate('MolecularData.save / load raised (three save/load cycles)', c, repr(e))
                 continue
+            # Model of the attribute encode / decode table (None <-> False sentinel, int(), float()) vs the real round trip
+            try:
+                kinds = {'n_orbitals': 1, 'n_qubits': 1, 'nuclear_repulsion': 2}
+                names_ = scalars + ints
+
+                def enc_attr(v):
+                    if v is None:
+                        return None
+                    if isinstance(v, (bool, numpy.bool_)):
+                        return {'bool': bool(v)}
+                    if isinstance(v, (int, numpy.integer)):
+                        return {'int': int(v)}
+                    f = Fraction(float(v))
+                    return {'real': [f.numerator, f.denominator]}
+                answers = ctx.driver.run([{'op': 'c20.attr', 'kind': kinds.get(a, 0), 'value': enc_attr(want.get(a))} for a in names_])
+                for a, mo in zip(names_, answers):
+                    got = getattr(m2, a)
+                    s.count('attribute-table')
+                    if mo is None:
+                        same = got is None
+                    elif got is None:
+                        same = False
+                    elif 'int' in mo:
+                        same = float(got) == float(mo['int'])
+                    else:
+                        same = Fraction(float(got)) == Fraction(mo['real'][0], mo['real'][1])
+                    if not same:
+                        s.disagree('MolecularData attribute ' + a, c, repr(got), mo)
+            except Exception as e:  # noqa: BLE001
+                s.violate('attribute table check raised', c, repr(e))
             # get_from_file: stored datasets, unknown keys and missing files
             try:
                 s.count('oracle:get_from_file')
@@ -941,4 +982,9 @@ def replay(ctx, payload):
 
 
 def run(ctx):
-    return [stream_text(ctx), stream_files(ctx), stream_molecule(ctx)]
+    FLOAT_MODEL['checked'], FLOAT_MODEL['bad'] = 0, []
+    streams = [stream_text(ctx), stream_files(ctx), stream_molecule(ctx)]
+    streams[0].count('float() on integer literals vs the Lean model (hypothesis of coef_contract_int)', FLOAT_MODEL['checked'])
+    for k, py, m in FLOAT_MODEL['bad']:
+        streams[0].disagree('float(s) on an integer literal', {'s': k}, py, m)
+    return streams
